@@ -135,8 +135,14 @@ let run_struct c =
     let decoded = List.map (fun sf -> json_ints (List.map int_of_z (sem_subframe f.f_hdr.h_bs sf))) f.f_subs in
     let rew = (match write_frame f with Some b -> hex_of_bytes b | None -> "") in
     let pcm = List.map (fun c -> json_ints (List.map int_of_z c)) (sem_frame f) in
-    Printf.sprintf "{\"end\":\"ok\",\"rewritten\":\"%s\",\"decoded\":[%s],\"wf\":%b,\"spec\":%b,\"pcm\":[%s],\"number\":%d,\"bs\":%d,\"canonical\":%b}"
-      rew (String.concat "," decoded) (wf_frame si f) (spec_frame f) (String.concat "," pcm) (int_of_n f.f_hdr.h_number) (int_of_n f.f_hdr.h_bs) (frame_canonical si bytes)
+    (* per subframe: serialised size in bits, kind, wasted bits, bit depth (for the C19 decision rule) *)
+    let subs = List.mapi (fun i sf ->
+        let b = int_of_n (subframe_bps f.f_hdr.h_assign f.f_hdr.h_bps (nat_of_int i)) in
+        let kind = (match sf.sf_body with BConst _ -> "constant" | BVerb _ -> "verbatim" | BFixed _ -> "fixed" | BLpc _ -> "lpc") in
+        Printf.sprintf "{\"bits\":%d,\"kind\":\"%s\",\"wasted\":%d,\"bps\":%d}"
+          (List.length (write_subframe (n_of_int b) sf)) kind (int_of_n sf.sf_wasted) b) f.f_subs in
+    Printf.sprintf "{\"end\":\"ok\",\"rewritten\":\"%s\",\"decoded\":[%s],\"wf\":%b,\"spec\":%b,\"pcm\":[%s],\"number\":%d,\"bs\":%d,\"canonical\":%b,\"subs\":[%s]}"
+      rew (String.concat "," decoded) (wf_frame si f) (spec_frame f) (String.concat "," pcm) (int_of_n f.f_hdr.h_number) (int_of_n f.f_hdr.h_bs) (frame_canonical si bytes) (String.concat "," subs)
   | r -> Printf.sprintf "{\"end\":\"%s\"}" (res_name r)
 
 (* the strict stream validator (Spec.spec_stream): judge a whole file, return the PCM it defines *)
